@@ -56,6 +56,37 @@ func (in *Interp) intrinsic(fn *ssa.Function, args []Val) (Val, bool) {
 		return in.nondetOf(res.At(0).Type(), nm), true
 	case name == "verifNote":
 		return nil, true
+	case name == "verifFAdd", name == "verifFSub", name == "verifFMul":
+		F := in.cfg.Field
+		x, y := in.frRead(args[0]), in.frRead(args[1])
+		var r *Term
+		switch name {
+		case "verifFAdd":
+			r = F.Add(in, x, y)
+		case "verifFSub":
+			r = F.Sub(in, x, y)
+		default:
+			r = F.Mul(in, x, y)
+		}
+		return in.frValue(fn.Signature.Results().At(0).Type(), r), true
+	case name == "verifFNeg":
+		x := in.frRead(args[0])
+		return in.frValue(fn.Signature.Results().At(0).Type(), in.cfg.Field.Sub(in, in.frConst(args[0], 0), x)), true
+	case name == "verifFInv":
+		x := in.frRead(args[0])
+		return in.frValue(fn.Signature.Results().At(0).Type(), in.cfg.Field.Inv(in, x)), true
+	case name == "verifFConst":
+		t := args[0].(*Term)
+		if !t.IsConst {
+			panic(abort("unmodelled", "verifFConst of a symbolic integer"))
+		}
+		rt := fn.Signature.Results().At(0).Type()
+		z := in.zero(rt).(*ArrayV)
+		return in.frValue(rt, in.cfg.Field.Const(sext(t.C, t.Sort.W), wordW(z))), true
+	case name == "verifFEq":
+		return in.cfg.Field.Eq(in, in.frRead(args[0]), in.frRead(args[1])), true
+	case name == "verifFIsZero":
+		return in.cfg.Field.Eq(in, in.frRead(args[0]), in.frConst(args[0], 0)), true
 	case name == "verifAnd":
 		return in.s.And(args[0].(*Term), args[1].(*Term)), true
 	case name == "verifOr":
